@@ -104,7 +104,7 @@ static unsigned canon_what(hwloc_topology_t t)
 void hv_case(uint64_t index)
 {
   hv_rng_seed(&R, HV.seed, "c05", index);
-  hx_whitespace_controls = index % 4 == 2;
+  hx_whitespace_controls = (index / 16) % 4 == 2;   /* not index % 4: workers own index classes modulo their number and each has a fixed back-end pair */
   struct tg_config c; tg_config_random(&R, &c, 0);
   c.flags &= (HWLOC_TOPOLOGY_FLAG_INCLUDE_DISALLOWED | HWLOC_TOPOLOGY_FLAG_NO_DISTANCES | HWLOC_TOPOLOGY_FLAG_NO_MEMATTRS | HWLOC_TOPOLOGY_FLAG_NO_CPUKINDS | HWLOC_TOPOLOGY_FLAG_IMPORT_SUPPORT);
   if (hv_chance(&R, 2, 3)) c.flags &= ~(unsigned long)(HWLOC_TOPOLOGY_FLAG_NO_DISTANCES | HWLOC_TOPOLOGY_FLAG_NO_MEMATTRS | HWLOC_TOPOLOGY_FLAG_NO_CPUKINDS);
